@@ -4,6 +4,6 @@ From Coq Require Import Ascii List.
 From C31 Require Import C31Model C31Proofs.
 
 Theorem strip_comments_in_bounds_refuted :
-  exists ts, lex false oob_input = Ok ts /\ strip_comments false ts = None.
+  exists ts, lex (pinned false) oob_input = Ok ts /\ strip_comments false ts = None.
 Proof. exact strip_oob_witness. Qed.
 Print Assumptions strip_comments_in_bounds_refuted.
